@@ -3,6 +3,7 @@
 package simtime
 
 import (
+	"sync"
 	orig "time"
 
 	"verifsim/sim/kern"
@@ -30,4 +31,93 @@ func Sleep(d Duration) {
 		return
 	}
 	kern.Call(kern.Req{Op: kern.OpSleep, A: int64(d)})
+}
+
+// Timer mirrors time.Timer on the simulated clock: a task sleeps for the duration and then
+// delivers (unless the timer was stopped or reset meanwhile).
+type Timer struct {
+	C <-chan Time
+
+	c    chan Time
+	f    func()
+	mu   sync.Mutex
+	gen  int  // incremented by Stop and Reset: a sleeper of an older generation does nothing
+	live bool // a delivery is still pending
+	real *orig.Timer
+}
+
+func (t *Timer) arm(d Duration) {
+	t.mu.Lock()
+	t.gen++
+	gen := t.gen
+	t.live = true
+	t.mu.Unlock()
+	kern.Go("timer", func() {
+		Sleep(d)
+		t.mu.Lock()
+		fire := t.live && t.gen == gen
+		if fire {
+			t.live = false
+		}
+		t.mu.Unlock()
+		if !fire {
+			return
+		}
+		if t.f != nil {
+			t.f()
+			return
+		}
+		select {
+		case t.c <- Now():
+		default:
+		}
+	})
+}
+
+// NewTimer creates a Timer that sends the simulated time on its channel after d.
+func NewTimer(d Duration) *Timer {
+	if !kern.Active() {
+		rt := orig.NewTimer(d)
+		return &Timer{C: rt.C, real: rt}
+	}
+	c := make(chan Time, 1)
+	t := &Timer{C: c, c: c}
+	t.arm(d)
+	return t
+}
+
+// AfterFunc runs f in its own task after d of simulated time.
+func AfterFunc(d Duration, f func()) *Timer {
+	if !kern.Active() {
+		return &Timer{real: orig.AfterFunc(d, f)}
+	}
+	t := &Timer{f: f}
+	t.arm(d)
+	return t
+}
+
+// After is NewTimer(d).C.
+func After(d Duration) <-chan Time { return NewTimer(d).C }
+
+// Stop prevents the Timer from firing; it reports whether it was still pending.
+func (t *Timer) Stop() bool {
+	if t.real != nil {
+		return t.real.Stop()
+	}
+	t.mu.Lock()
+	was := t.live
+	t.live = false
+	t.gen++
+	t.mu.Unlock()
+	return was
+}
+
+// Reset changes the timer to expire after d.
+func (t *Timer) Reset(d Duration) bool {
+	if t.real != nil {
+		return t.real.Reset(d)
+	}
+	was := t.Stop()
+	t.arm(d)
+	return was
 }
